@@ -1,7 +1,7 @@
 (* C06 property theorems (statements only; proofs are in C06_proofs_*.v). *)
 From Coq Require Import ZArith QArith Reals Qreals List Bool Arith.
 From Bignums Require Import BigQ.
-From P Require Import C06_model_ops C06_gen C06_model C06_proofs_real C06_proofs_list C06_proofs_geom C06_proofs_radii.
+From P Require Import C06_model_ops C06_gen C06_model C06_proofs_real C06_proofs_list C06_proofs_geom C06_proofs_select.
 Import ListNotations.
 Local Open Scope R_scope.
 
@@ -158,20 +158,3 @@ Theorem hirshfeld_call_share : forall M rho pts idx A j,
   nth j (hirshfeld_call ROps M rho pts idx) 0 = hirshfeld_weight ROps M rho (nth j pts d0) A.
 Proof. exact hirshfeld_call_share_lemma. Qed.
 Print Assumptions hirshfeld_call_share.
-
-(* every supported element (Z = 1..86) gets a defined, positive radius from the generated fallback expression
-   applied to the generated Bragg table; the fallback is the nearest lower tabulated element (at most 2 below);
-   both textual copies of the expression and of the cell formula are the same term *)
-Theorem radii_supported : forall z, (1 <= z <= 86)%Z ->
-  exists q, radius_gw bragg_table z = PVal q /\ (0 < q)%Q /\ radius_value ROps bragg_table z = Some (Q2R q) /\ 0 < Q2R q.
-Proof. exact radii_supported_lemma. Qed.
-Print Assumptions radii_supported.
-
-Theorem radius_fallback_spec : forall z, (1 <= z <= 86)%Z -> fallback_okb z = true.
-Proof. exact fallback_spec_lemma. Qed.
-Print Assumptions radius_fallback_spec.
-
-Theorem copies_identical : forall T (O : NumOps T) k mu a tbl z,
-  cell_caw O k (nu_caw O mu a) = cell_gw O k (nu_gw O mu a) /\ radius_caw tbl z = radius_gw tbl z.
-Proof. exact copies_identical_lemma. Qed.
-Print Assumptions copies_identical.
